@@ -2,6 +2,7 @@ import EtVerif.Props.C02
 import EtVerif.Props.TrC09
 import EtVerif.Props.TrC01
 import EtVerif.Props.TrC02
+import EtVerif.Props.TrC04
 #print axioms EtVerif.C02.step_den
 #print axioms EtVerif.C02.step_wf
 #print axioms EtVerif.C02.step_mass
@@ -31,3 +32,8 @@ import EtVerif.Props.TrC02
 #print axioms EtVerif.TrC01.compute_schedule
 #print axioms EtVerif.TrC01.compute_default_schedule
 #print axioms EtVerif.TrC02.go_compute_distribution
+-- the hypotheses of the distribution theorems (row-stochastic local trust, pre-trust summing to one) are established
+-- by the translated Go canonicalisers: their refinement is part of what C02 rests on
+#print axioms EtVerif.TrC04.canonicalize_refines
+#print axioms EtVerif.TrC04.canonicalizeTrustVector_refines
+#print axioms EtVerif.TrC04.canonicalizeLocalTrust_refines
